@@ -32,6 +32,7 @@ RULE = (
     "per type, under the 3 policies and the default; non-trivial = a splitting note or a keysounded hold. Fixed part: "
     "every corpus chart per player x 4 include sets. distinct = distinct case JSON"
 )
+RULE += " " + "Added after the seeding rounds: the stream is handed to group_notes as list, one-shot iterator, generator and NoteData object in rotation; hand-built sequences include a note-with-tail whose head lies inside another one on its column (RAISE and KEEP judged exactly; under DROP the inner hold's own tail may be present or absent)."
 ASSUMPTIONS = [
     "reference model vf/model_group.py names the orphans that DROP policies remove",
     "streams have unique (beat, column) positions; tails carry no keysound index (the property's domain)",
